@@ -549,6 +549,40 @@ fn ext_case_variants() -> Vec<String> {
     out
 }
 
+/// round 5 — HISTORY: a write that FAILS in serialization (second record's `Serialize` errors after the first record
+/// and part of the second were produced), then — same thread — ordinary writes. The failed write must be reported as
+/// an error, and nothing of it may reach a later object (a scratch buffer kept across calls would leak it): the
+/// following `one_jsonl` cases check their stored bytes against the independently serialised records.
+struct Bomb { id: i64, bomb: bool }
+impl Serialize for Bomb {
+    fn serialize<S: serde::Serializer>(&self, ser: S) -> Result<S::Ok, S::Error> {
+        use serde::ser::SerializeMap;
+        let mut m = ser.serialize_map(Some(2))?;
+        m.serialize_entry("id", &self.id)?;
+        if self.bomb { return Err(serde::ser::Error::custom("bomb")); }
+        m.serialize_entry("tail", "x")?;
+        m.end()
+    }
+}
+fn failed_write_then(cx: &mut Ctx, key: &str, n_good: usize) {
+    let st = FakeObjectIO::new();
+    let mut recs: Vec<Bomb> = (0..n_good as i64).map(|i| Bomb { id: 2_000_000 + i, bomb: false }).collect();
+    recs.push(Bomb { id: 1_000_003, bomb: true });
+    let w = guarded(|| write_cloud_jsonl_vec(&st, B, key, &recs).map_err(|e| format!("{:?}", e.kind)));
+    let i = cx.case(format!("ORACLE-ONLY failed-serialization-write {} good={n_good}", xs(key)), "-".into(), true);
+    cx.count("jsonl:history=failed-serialization-first");
+    match &w {
+        Ok(Err(_)) => {}
+        Ok(Ok(n)) => cx.oracle_fail(i, "unserialisable-record-written-as-ok", format!("key {key:?}: Ok({n})")),
+        Err(m) => cx.oracle_fail(i, "unserialisable-record-panics", m.clone()),
+    }
+    if let Ok(b) = st.get_object(B, key) {
+        if !b.is_empty() && doc_codec(key) == "plain" && !b.ends_with(b"\n") {
+            cx.oracle_fail(i, "failed-write-left-a-torn-object", format!("key {key:?}: {} bytes stored, not newline-terminated", b.len()));
+        }
+    }
+}
+
 fn one_jsonl<T: Record>(cx: &mut Ctx, key: &str, recs: &[T]) {
     let mut violated: Vec<&'static str> = vec![];
     for r in recs {
@@ -1150,6 +1184,8 @@ pub fn tables(out: &mut String) {
 pub fn run(cx: &mut Ctx) {
     // ---- (1) corpus: design witnesses and minimised past failures -------------------------------
     let r1 = Rec { id: 1, s: "x".into(), tags: vec![], o: None };
+    failed_write_then(cx, "h/fail.jsonl", 2);
+    one_jsonl(cx, "h/after.jsonl", &[r1.clone()]);
     one_jsonl(cx, "dir/.gz", &[r1.clone()]); // DESIGN §8 #16: written plain, read through gzip
     one_jsonl(cx, ".zst", &[r1.clone(), r1.clone()]);
     one_jsonl::<Rec>(cx, "dir/.gz", &[]);
@@ -1259,6 +1295,8 @@ pub fn run(cx: &mut Ctx) {
     for stem in STEMS {
         for ext in &exts {
             let key = format!("{stem}{ext}");
+            // every fourth key: a failed write (same thread) right before the judged round trip
+            if (stem.len() + ext.len()) % 4 == 0 { failed_write_then(cx, &format!("h/{stem}{ext}"), (stem.len() + ext.len()) % 3); }
             one_jsonl(cx, &key, &[r1.clone(), r2.clone(), r3.clone()]);
             if cx.tier != crate::ctx::Tier::Quick || stem.len() <= 4 {
                 one_jsonl::<Rec>(cx, &key, &[]);
